@@ -81,6 +81,12 @@ Theorem C28_single_chain : forall ops h,
 Proof. exact c28_single_chain. Qed.
 Print Assumptions C28_single_chain.
 
+(* The executable chain check the correspondence runs on the records read back
+   from a real store (after the kernel's own recording step) is sound. *)
+Theorem C28_chain_check_sound : forall l, chainb l = true -> chain l.
+Proof. exact chainb_sound. Qed.
+Print Assumptions C28_chain_check_sound.
+
 (* A write that changes the store links to the newest record and is later. *)
 Theorem C28_write_extends : forall h o h' pre lst,
   chain h -> h = pre ++ [lst] -> co_genesis o = false ->
